@@ -170,6 +170,10 @@ pub fn bs<C: BlockSizeUser>() -> usize {
 pub fn ks<C: KeySizeUser>() -> usize {
     C::KeySize::USIZE
 }
+/// the key slice viewed as `&Key<C>` WITHOUT copying it (C16 must not leave copies of the key on the stack itself)
+pub fn kref<C: KeySizeUser>(k: &[u8]) -> &Key<C> {
+    <&Key<C>>::try_from(k).expect("key length")
+}
 
 pub fn enc1<C: BlockCipherEncrypt>(c: &C, b: &[u8]) -> Vec<u8> {
     let mut blk = Array::<u8, C::BlockSize>::try_from(b).expect("block length");
@@ -385,6 +389,7 @@ fn c04_case<C: BlockCipherEncrypt + BlockCipherDecrypt>(c: &C, inp: &[u8], n: us
     for dec in [false, true] {
         let dir = if dec { "decrypt" } else { "encrypt" };
         input_add_str("direction", dir);
+        input_add_str("offset", "");
         // the per-block result
         let mut want_ = Vec::with_capacity(n * bsz);
         for i in 0..n {
@@ -412,6 +417,7 @@ fn c04_case<C: BlockCipherEncrypt + BlockCipherDecrypt>(c: &C, inp: &[u8], n: us
                 fail("*_blocks (in place) wrote outside the designated blocks", "bytes around the buffer changed", "unchanged");
             }
         }
+        input_add_str("offset", "");
         // buffer to buffer, separate buffers, guard bytes around the output, all alignments
         for round in 0..4 {
             let (io, oo) = if round == 0 { (0, bsz.max(16)) } else { (rng.range(0, 17), bsz.max(16) + rng.range(0, 17)) };
@@ -453,7 +459,9 @@ fn c04_case<C: BlockCipherEncrypt + BlockCipherDecrypt>(c: &C, inp: &[u8], n: us
             outbig.clear();
         }
         // single-block buffer-to-buffer forms
+        input_add_str("offset", "");
         for i in 0..n.min(3) {
+            input_add_str("block_index", &i.to_string());
             let x = &inp[i * bsz..(i + 1) * bsz];
             let w = &want_[i * bsz..(i + 1) * bsz];
             for form in 0..2 {
@@ -760,7 +768,8 @@ struct Inst<T> {
 }
 
 /// Build instances per (route, key) in zero-initialised storage, take the set P of byte positions at which two
-/// instances keyed differently differ, drop every instance in place and require every position of P to read zero.
+/// instances keyed differently (same construction route) differ, drop every instance in place and require every
+/// position of P to read zero.
 ///
 /// Padding and inactive union space are not written by construction and hold whatever the stack held; to keep such
 /// bytes out of P every (route, key) is built twice: the second time from a copy of the key at another address, after
@@ -815,32 +824,85 @@ pub fn c16_core<T>(routes: &[(&str, &dyn Fn(&[u8]) -> Option<T>)], keys: &[Vec<u
             }
         }
     }
+    // key dependence is judged among instances built by the SAME route (differently keyed, same code path)
     let mut dep = vec![false; size];
-    for s in &insts[1..] {
+    for (i, a) in insts.iter().enumerate() {
+        let Some(first) = insts.iter().position(|b| b.route == a.route) else { continue };
+        if first == i {
+            continue;
+        }
         for p in 0..size {
-            if s.snap[p] != insts[0].snap[p] && !noisy[p] {
+            if a.snap[p] != insts[first].snap[p] && !noisy[p] {
                 dep[p] = true;
             }
         }
     }
     let ndep = dep.iter().filter(|&&d| d).count();
     let nnoisy = noisy.iter().filter(|&&d| d).count();
+    // drop every instance in place
+    let mut afters: Vec<Vec<u8>> = Vec::with_capacity(insts.len());
     for inst in insts.iter_mut() {
         input(&[("key", &inst.key)]);
         input_add_str("route", &inst.route);
-        input_add_str("size_of", &size.to_string());
-        input_add_str("key_dependent_positions", &ndep.to_string());
-        input_add_str("key_independent_garbage_positions", &nnoisy.to_string());
         let mut after = Vec::new();
         let slot = &mut inst.slot;
         guard("drop", || {
             slot.drop_in_place();
             after = slot.bytes();
         });
+        afters.push(after);
+    }
+    // Storage the instance never initialised (padding, the inactive arm of a union) keeps stale stack contents, and
+    // stale contents written by the constructor's own callees can be a function of the key that no twin exposes.
+    // Such bytes sit in a stretch that `drop` never modifies in any instance and that also holds recognisable
+    // garbage; a surviving byte in such a stretch is NOT reported (may miss a field that is never erased and borders
+    // on padding; never blames uninitialised storage).
+    let mut touched = vec![false; size];
+    for (inst, after) in insts.iter().zip(&afters) {
+        if after.len() == size {
+            for p in 0..size {
+                if after[p] != inst.snap[p] {
+                    touched[p] = true;
+                }
+            }
+        }
+    }
+    let mut uninit_like = vec![false; size];
+    let mut p = 0;
+    while p < size {
+        if touched[p] {
+            p += 1;
+            continue;
+        }
+        let start = p;
+        while p < size && !touched[p] {
+            p += 1;
+        }
+        if (start..p).any(|q| noisy[q]) {
+            for q in start..p {
+                uninit_like[q] = true;
+            }
+        }
+    }
+    let nun = uninit_like.iter().filter(|&&d| d).count();
+    if with(|s| s.stats) {
+        let (k, t) = with(|s| (s.krate.clone(), s.ty.clone()));
+        eprintln!(
+            "[vp-native] C16 {}/{}: size_of {} bytes, {} instances, {} key-dependent positions, {} garbage positions, {} positions in never-written stretches",
+            k, t, size, insts.len(), ndep, nnoisy, nun
+        );
+    }
+    for (idx, (inst, after)) in insts.iter().zip(&afters).enumerate() {
         if after.len() != size {
             continue;
         }
-        let bad: Vec<usize> = (0..size).filter(|&i| dep[i] && after[i] != 0).collect();
+        input(&[("key", &inst.key)]);
+        input_add_str("route", &inst.route);
+        input_add_str("instance", if inst.twin < idx { "second build of this key" } else { "first build of this key" });
+        input_add_str("size_of", &size.to_string());
+        input_add_str("key_dependent_positions", &ndep.to_string());
+        input_add_str("uninitialised_looking_positions", &nun.to_string());
+        let bad: Vec<usize> = (0..size).filter(|&i| dep[i] && !uninit_like[i] && after[i] != 0).collect();
         if !bad.is_empty() {
             let first = bad[0];
             input_add_str("nonzero_positions", &format!("{} (first {}, last {})", bad.len(), first, bad[bad.len() - 1]));
@@ -883,7 +945,7 @@ pub fn c16<D: Desc>() {
     let mut rng = Rng::for_label(&format!("C16/{}/{}", D::CRATE, D::NAME));
     let keys = c16_keys(&mut rng, &D::key_lens());
     let new_ = |k: &[u8]| D::C::new_from_slice(k).ok();
-    let fixed = |k: &[u8]| if k.len() == ks::<D::C>() { Some(D::C::new(&Key::<D::C>::try_from(k).unwrap())) } else { None };
+    let fixed = |k: &[u8]| if k.len() == ks::<D::C>() { Some(D::C::new(kref::<D::C>(k))) } else { None };
     let cloned = |k: &[u8]| {
         let c = D::C::new_from_slice(k).ok()?;
         D::clone_of(&c)
